@@ -31,6 +31,7 @@ type Contract struct {
 	NoPanic   bool // explicit panics are obligations (default true); false: panics are allowed exits
 	AllowPanic bool
 	NoFrame    bool
+	AssumeFrame bool // the modifies clause is used at call sites but not checked on the body (listed in evidence)
 	Fuel       int
 	GhostVars  []GhostSet
 	Wakes      []Clause
@@ -245,6 +246,10 @@ func (cs *ContractSet) LoadContractFile(path, pkgPath string) error {
 		case "noframe":
 			if cur != nil {
 				cur.NoFrame = true
+			}
+		case "assumeframe":
+			if cur != nil {
+				cur.AssumeFrame = true
 			}
 		case "requires", "ensures", "invariant", "assert", "assume", "wakes":
 			label := ""
